@@ -1018,6 +1018,10 @@ class Fxp():
             new_val = new_val_real + 1j * new_val_imag
 
             if index is not None:
+                if not np.iscomplexobj(self.val) and np.any(np.imag(new_val) != 0):
+                    # a complex value written into an array of real codes: the array holds complex codes from now on
+                    # (the imaginary part must not be dropped silently)
+                    self.val = np.asarray(self.val).astype(complex)
                 self.val[index] = new_val
             else:
                 self.val = new_val
